@@ -187,6 +187,9 @@ def run(shard, ctx):
     transports = install.transport_factories()
     i = 0
     for setname in c.sets:
+        if c.xfer in ("read", "write", "writesame") and c.facade:
+            for _ in range(3 if shard["small"] else 40):
+                two_facades(ctx, c, setname, rng)
         for a in cases(c, rng, shard):
             i += 1
             if a.pop("_huge", False):
@@ -218,6 +221,15 @@ def one(ctx, c, setname, a, transports, do_transports, rng):
                                                   "len_out": _len(cmd.dataout)} if ctx.want_sample() else None)
             ctx.count("objects_checked")
             ctx.add("xfer_kinds", c.xfer)
+            if not isinstance(cmd.datain, Huge) and not isinstance(cmd.dataout, Huge) and len(cmd.datain) + len(cmd.dataout) <= 1 << 16:
+                import copy as _copy
+
+                try:
+                    clone = _copy.deepcopy(cmd)
+                    check_buffers(ctx, c, setname, "deepcopy", full, clone.cdb, clone.datain, clone.dataout)
+                    ctx.count("deep_copies_checked")
+                except Exception as e:  # noqa: BLE001
+                    ctx.fail("C03:%s.deepcopy_raises" % c.name, "copy.deepcopy(command) raised %s" % e, {"cmd": c.name, "args": a}, exc=e)
             if not c.facade or not do_transports:
                 return
             for tname, mk in transports:
@@ -269,6 +281,39 @@ def one(ctx, c, setname, a, transports, do_transports, rng):
                     if (ev["dir"], ev["xferlen"]) != want:
                         ctx.fail("C03:%s.iscsi_task_direction" % c.name, "Task(dir=%r, xferlen=%r) for in=%d out=%d" % (ev["dir"], ev["xferlen"], li, lo),
                                  {"cmd": c.name, "args": a})
+
+
+def two_facades(ctx, c, setname, rng):
+    """two facade objects with different block sizes over one device object, used alternately"""
+    import pyscsi.pyscsi.scsi_enum_command as E
+
+    from vmon import harness
+
+    dev = harness.Recorder(getattr(E, setname))
+    sizes = rng.sample([512, 520, 4096, 1024], 2)
+    facs = [harness.make_facade(dev, bs) for bs in sizes]
+    for i in range(8):
+        j = rng.choice([0, 1]) if i > 1 else i
+        a = harness.random_args(c, rng, cap=1 << 16)
+        a["blocksize"] = sizes[j]
+        if "tl" in c.args:
+            a["tl"] = rng.choice([0, 1, 4, 16])
+        a = harness.fill_derived(c, a, rng)
+        kw = harness.call_kwargs(c, a)
+        kw.pop("blocksize")
+        before = len(dev.calls)
+        try:
+            getattr(facs[j], c.facade)(**kw)
+        except Exception as e:  # noqa: BLE001
+            ctx.fail("C03:%s.two_facades_raises" % c.name, "%s raised %s" % (c.facade, e), {"cmd": c.name, "args": a}, exc=e)
+            continue
+        ctx.case(("two-facades", c.name, setname, i, harness.args_repr(a)), True)
+        ctx.count("two_facade_calls")
+        if len(dev.calls) == before + 1:
+            sent = dev.calls[-1][0]
+            full = dict(harness.defaults(c))
+            full.update(a)
+            check_buffers(ctx, c, setname, "two_facades_one_device", full, sent.cdb, sent.datain, sent.dataout)
 
 
 def finalize(merged, tier):
